@@ -2,3 +2,4 @@ pub mod hist_props;
 pub mod c13;
 pub mod c12;
 pub mod c10;
+pub mod c05;
